@@ -11,12 +11,12 @@ use std::collections::{BTreeMap, BTreeSet};
 use std::time::{Duration, Instant};
 
 use explorer::task::{block_on_quiescent, End};
-use explorer::{dfs, json, Chooser, DfsCfg, Report};
+use explorer::{dfs, json, Chooser, Report};
 use p2panda_stream::ingest::ingest_operation;
 
 use crate::fixtures::{height, Cap, LogIdT, Op, TOPIC};
 use crate::par::{par_for, Acc};
-use crate::replica::{build, describe, product, slot_options, to_json, Chains, Config, Replica, SlotCfg, SlotSide};
+use crate::replica::{template, describe, product, slot_options, to_json, Chains, Config, Replica, SlotCfg, SlotSide};
 use crate::session::{run_pair, sym, Outcome, PairRun, Sym};
 
 /// What side `rx` must be told about, given what `tx` stores and lists.
@@ -67,7 +67,11 @@ fn oracle(
     let mut v: Vec<(String, String)> = vec![];
     let name = ["A", "B"];
     if let Some(p) = &run.panic {
-        v.push(("panic".into(), format!("p2panda code panicked: {p}")));
+        if p.starts_with(crate::session::SPIN) {
+            v.push(("session-did-not-complete/livelock".into(), format!("the sync loop spins without yielding ({p})")));
+        } else {
+            v.push(("panic".into(), format!("p2panda code panicked: {p}")));
+        }
         return (v, [0, 0]);
     }
     match &run.end {
@@ -207,16 +211,17 @@ fn run_part(rep: &mut Report, chains: &Chains, part: &Part, wall: Instant) {
         let mut flowed = false;
         let mut sample: Option<explorer::Value> = None;
         let verified = std::cell::RefCell::new(BTreeSet::new());
+        let tpl = [template(chains, cfg, 0), template(chains, cfg, 1)];
         let st = dfs(
-            &DfsCfg { max_dev: part.max_dev, ..Default::default() },
+            &crate::session::dfs_cfg(part.max_dev, wall),
             |ch: &Chooser| {
-                let reps = [build(chains, cfg, 0), build(chains, cfg, 1)];
+                let reps = [tpl[0].instantiate(), tpl[1].instantiate()];
                 let run = run_pair(
                     ch,
                     [reps[0].store.clone(), reps[1].store.clone()],
                     [reps[0].logs.clone(), reps[1].logs.clone()],
                     Cap::Unbounded,
-                    5_000,
+                    2_000,
                 );
                 let (v, n) = oracle(chains, cfg, &reps, &run, &verified);
                 let recv: Vec<Vec<String>> = (0..2)
